@@ -26,11 +26,11 @@ type Case struct {
 	R          *ops.ROp    `json:"read,omitempty"`
 	Prepare    bool        `json:"prepare_stmt"`
 	ExplicitTx bool        `json:"explicit_tx"`
-	HookSets   bool        `json:"hook_sets"`           // before-hooks of root users set Age (directly on create, via SetColumn on update)
-	HookWrites bool        `json:"hook_writes"`         // BeforeSave/BeforeDelete of root users write a marker row through their tx
+	HookSets   bool        `json:"hook_sets"`                 // before-hooks of root users set Age (directly on create, via SetColumn on update)
+	HookWrites bool        `json:"hook_writes"`               // BeforeSave/BeforeDelete of root users write a marker row through their tx
 	PriorSkip  bool        `json:"prior_skiphooks,omitempty"` // the operation runs on a WithContext handle from which a Session{SkipHooks:true} was derived and abandoned before
-	HookCtx    bool        `json:"hook_ctx,omitempty"`  // with hook_writes: the hook writes through tx.WithContext(ctx) instead of tx itself
-	ErrClass   string      `json:"err_class,omitempty"` // the failing hook's error wraps this well-known error (simdrv.ClassError)
+	HookCtx    bool        `json:"hook_ctx,omitempty"`        // with hook_writes: the hook writes through tx.WithContext(ctx) instead of tx itself
+	ErrClass   string      `json:"err_class,omitempty"`       // the failing hook's error wraps this well-known error (simdrv.ClassError)
 	MaxSites   int         `json:"max_sites"`
 	Pick       int64       `json:"pick_seed"`
 	Only       []ops.Fault `json:"only,omitempty"`
